@@ -107,7 +107,7 @@ def explore_job(job: Job, seed=0, second_solver=False):
                                                verdicts=[(c, ('obligation' if is_sym(v) else v)) for c, v, _ in ctx.results][:30]))
                 # ---- verdicts
                 for clause, verdict, info in ctx.results:
-                    if not clause.startswith(job.prop + '.'):
+                    if job.prop != '*' and not clause.startswith(job.prop + '.'):
                         continue
                     cr = out['clause_regions'].setdefault(clause, dict(regions=0, obligations=0, violated=0))
                     cr['regions'] += 1
@@ -133,7 +133,7 @@ def explore_job(job: Job, seed=0, second_solver=False):
                     if os.environ.get('VFW_DEBUG_REGIONS') == clause:
                         out.setdefault('debug', []).append(('V', zsym.model_to_dict(drv, drv.check_sat(violating)[1]), str(z3.simplify(pc))[:3000]))
                     # ---- attribute to known findings
-                    ks = [e for e in known if e.get('clause') == clause]
+                    ks = [e for e in known if e.get('clause') == clause and (not e.get('tag') or e['tag'] in ctx.tags)]
                     model = None
                     if ks:
                         regs = [zsym.parse_region(e.get('region', 'true'), drv, job.cfg) for e in ks]
